@@ -563,6 +563,9 @@ func propC07(j *Job) {
 	}
 	runCases(j, cases, func(spec *xferSpec) func(m *Sim, x *Exec, r *xferResult) { return prFinal(spec, true) })
 	for _, mode := range modes {
+		j.Explore(fmt.Sprintf("PRR/%s/rx0", mode.Name), prAfterPeerResetScenario(withBase(mode.A, 228, 0xFFFFFFFA, 4000), withBase(mode.B, 228, 50, 4000), 0), Budget{}, nil)
+	}
+	for _, mode := range modes {
 		j.Explore(fmt.Sprintf("FR/%s", mode.Name), fwdAcrossResetScenario(withBase(mode.A, 228, 0xFFFFFFF9, 4000), withBase(mode.B, 228, 50, 4000)), Budget{}, nil)
 	}
 	for _, mode := range modes {
@@ -703,7 +706,27 @@ func prAfterPeerResetScenario(a, b epCfg, limit uint32) *Scenario {
 			if n > int(limit)+1 {
 				m.Failf("policy.rexmit", "after the peer reset its direction of the stream a message with retransmission limit %d was put on the wire %d times in 20 s of total loss (%d forward-TSN chunks)", limit, n, fwd)
 			}
-			m.Observe("sent=%d fwd=%d", n, fwd)
+			// the skip reaches the peer's stream (which it still reads): a reliable message
+			// written on the half-closed stream afterwards is delivered
+			sa.SetReliabilityParams(false, ReliabilityTypeReliable, 0)
+			later := payload(1, 2, 41)
+			if _, err := sa.WriteSCTP(later, PayloadTypeWebRTCBinary); err != nil {
+				m.Failf("pr.base", "write after the abandoned message: %v", err)
+			}
+			okLater := m.WaitUntil("later-delivered", 60*time.Second, func() bool {
+				m.mu.Lock()
+				defer m.mu.Unlock()
+				for _, g := range got {
+					if g == string(later) {
+						return true
+					}
+				}
+				return false
+			})
+			if !okLater {
+				m.Failf("skip.blocks-later", "after a message was abandoned on a stream whose peer had reset its own direction, the reliable message written next is not delivered within 60 s (receiver waits for SSN/MID %d/%d, sender has %d bytes buffered, %d forward-TSN chunks were sent)", sb.reassemblyQueue.nextSSN, sb.reassemblyQueue.nextMID, bufAmt(m.As[0]), fwd)
+			}
+			m.Observe("sent=%d fwd=%d later=%v", n, fwd, okLater)
 			m.CloseBoth()
 			m.Join(rdA, rdB)
 		},
